@@ -282,6 +282,7 @@ func init() {
 		}
 		base := g.document(2 + r.intn(2))
 		var fixed []Doc
+		var dynInsts []Inst
 		if r.chance(2, 5) {
 			// a small schema with enumerated instances, densely decorated
 			switch r.intn(4) {
@@ -296,6 +297,17 @@ func init() {
 				base = append(DObj{{"$schema", DStr("http://json-schema.org/draft-07/schema#")}}, base.(DObj)...)
 			}
 		}
+		if !g.draft7 && r.chance(1, 4) {
+			// several embedded resources with $dynamicRef / $ref hops between them (family dyn, no
+			// loader documents): a decoration must not change which schemas enter the dynamic scope
+			for try := 0; try < 30; try++ {
+				if vc := genDynCase(r, id); len(vc.Universe) == 0 && len(vc.Insts) > 0 {
+					base = vc.Doc
+					dynInsts, fixed = vc.Insts, []Doc{}
+					break
+				}
+			}
+		}
 		kws := map[string]int{}
 		keywordsOf(base, kws)
 		g.smallNums = kws["multipleOf"] > 0
@@ -305,6 +317,7 @@ func init() {
 		for _, d := range fixed {
 			c.Insts = append(c.Insts, canonInst(d))
 		}
+		c.Insts = append(c.Insts, dynInsts...)
 		for i := 0; i < 5 && fixed == nil; i++ {
 			d := g.instFor(base, base, 3)
 			if !(g.smallNums && hasBigNumber(d)) {
